@@ -31,6 +31,7 @@ LEVEL_TEXT = (
     "enumerated completely; generated values are sampled."
     " A lookalikes part cleans values that compare equal but differ in kind or sign (0, 0.0, -0.0, False, '0') one after the other; numpy scalars, non-finite texts, odd digit characters and relative paths through ./, ../ and dot-files are in the pool; an error raised by clean(..., lineno) must not carry another line."
 )
+LEVEL_TEXT += ' Added later: arrays compared with everything observable (cells, mask, types, hardmask, fill value, writeable flag), hardened / read-only / plain arrays as raw values; a returned container edited by the caller, then the raw value cleaned again with the same and another parameter object.'
 LEVEL_NOTE = "Cells the docs leave open (numeric strings with blanks or exponents, bool given for a number, non-string given for a String) are only checked by the relations, not against an expected value."
 RULE = (
     "Cases: (parameter spec, raw value spec, working directory or none). Enumerated: the full matrix; generated: random "
